@@ -522,6 +522,10 @@ func normAtom(t *Term, nilness func(*Term) int) Atom {
 					}
 				}
 			}
+			if y.Op == "global" && cannotBeSentinel != nil && cannotBeSentinel(x, y.Name) {
+				// an unexported sentinel cannot come out of code that never mentions it
+				return mkc(false)
+			}
 			return Atom{Key: "ErrIs(" + x.Key() + ", " + y.Key() + ")", Pol: pol}
 		}
 		if p, ok := symCallPreds[t.Name]; ok && p != "" && len(t.Args) == 2 {
@@ -575,8 +579,52 @@ func normAtom(t *Term, nilness func(*Term) int) Atom {
 		}
 		return Atom{Key: "TypeIs(" + t.Args[0].Key() + ", " + t.Name + ")", Pol: pol}
 	}
+	if t.Op == "index" && len(t.Args) == 2 && allTrueBoolMap(t.Args[0]) {
+		// m[k] on a local map[K]bool that only ever stores true is the presence test
+		a := normAtom(mk("ok", "", t), nilness)
+		if !pol {
+			a.Pol = !a.Pol
+			a.Const = -a.Const
+		}
+		return a
+	}
 	return Atom{Key: "Truth(" + t.Key() + ")", Pol: pol}
 }
+
+// allTrueBoolMap: a tracked local map of type map[K]bool every stored value of
+// which is the constant true.
+func allTrueBoolMap(m *Term) bool {
+	for depth := 0; m != nil && depth < 64; depth++ {
+		switch m.Op {
+		case "maplit":
+			if !strings.HasSuffix(m.Name, "]bool") {
+				return false
+			}
+			for i := 1; i < len(m.Args); i += 2 {
+				if m.Args[i] != tTrue && !(m.Args[i].isConst() && m.Args[i].Name == "true") {
+					return false
+				}
+			}
+			return true
+		case "mapset":
+			if v := m.Args[2]; !(v.isConst() && v.Name == "true") {
+				return false
+			}
+			m = m.Args[0]
+		case "mapdel":
+			m = m.Args[0]
+		case "call":
+			return m.Name == "make" && len(m.Args) > 0 && strings.HasSuffix(m.Args[0].Name, "]bool")
+		default:
+			return false
+		}
+	}
+	return false
+}
+
+// cannotBeSentinel reports that the error term x cannot be (or wrap) the
+// package-level sentinel named global: set by the loader (load.go).
+var cannotBeSentinel func(x *Term, global string) bool
 
 // typeHasNoUnwrapIs reports (for a type string as printed in terms) that the
 // type is known and has neither an Unwrap nor an Is method. Set by the loader.
